@@ -18,7 +18,7 @@ import (
 // length), version B lists the Y clients. An epoch writes the other version in place while one datagram from
 // each client of the group it ADDS is in flight - for each of them the first look-up since the last reload,
 // some before the reload (they miss), some after it (they hit), some racing it - and then asks for every one
-// of those clients alone, one datagram at a time, until it is served its address (bounded: 400 polls, 2 ms
+// of those clients alone, one datagram at a time, until it is served its address (bounded: 400 polls, 5 ms
 // apart). Whatever happened in the burst, once the last rewrite is loaded the mapping served is the mapping
 // in the file: no serial order of the burst's datagrams and the reload leaves a listed client unserved.
 type fileEpochCase struct {
@@ -141,7 +141,7 @@ func (fileEpochEngine) Run(ctx *fw.Ctx, cs any) {
 			if c.V6 {
 				want = addr(y, k).To16()
 			}
-			cr.Poll = &PollSpec{Until: hex.EncodeToString(want), MaxPolls: 400, IntervalMs: 2}
+			cr.Poll = &PollSpec{Until: hex.EncodeToString(want), MaxPolls: 400, IntervalMs: 5}
 			polls = append(polls, pollAt{len(job.Reqs), y, k, e})
 			job.Reqs = append(job.Reqs, cr)
 		}
@@ -180,7 +180,7 @@ func (fileEpochEngine) Run(ctx *fw.Ctx, cs any) {
 			continue
 		}
 		for _, pr := range []string{"C16", "C10"} {
-			ctx.Viol(pr, "listed-client-not-served-after-refresh", "%s: epoch %d rewrote the lease file so that it lists client %s (%s) while one first datagram of each of the %d clients it adds was in flight; afterwards this client, asking alone %d times over %d ms, is never given that address - the file lists it, no later rewrite happened", desc, p.ep, net.HardwareAddr(mac(p.y, p.k)), addr(p.y, p.k), c.Burst, r.Polls, 2*r.Polls)
+			ctx.Viol(pr, "listed-client-not-served-after-refresh", "%s: epoch %d rewrote the lease file so that it lists client %s (%s) while one first datagram of each of the %d clients it adds was in flight; afterwards this client, asking alone %d times over %d ms, is never given that address - the file lists it, no later rewrite happened", desc, p.ep, net.HardwareAddr(mac(p.y, p.k)), addr(p.y, p.k), c.Burst, r.Polls, 5*r.Polls)
 		}
 		break // later epochs rewrite the file again: only the first failure is a clean witness
 	}
